@@ -186,7 +186,7 @@ def parse_any(feat):
         f = l.split(" ")
         d = dict(x.split("=", 1) for x in f[4:])
         holes = [tuple(h.split(":")) for h in d["holes"].split(",") if h]
-        rows.append(dict(panel=f[1], fam=f[2], op=f[3], d=d["d"], n=int(d["len"]), same=d["sameLen"] == "true", nopanic=d["nopanic"] == "true",
+        rows.append(dict(panel=f[1], fam=f[2], op=f[3], src=d.get("src", ".upd~b0").replace("~", " "), d=d["d"], n=int(d["len"]), same=d["sameLen"] == "true", nopanic=d["nopanic"] == "true",
                          holes=[(int(i), int(c, 16), int(n), src) for (i, c, n, src) in holes], comps=d["comp"].split("|") if d["comp"] else [],
                          targets=[(int(p), e.split(".")[-1], int(a)) for (p, e, a) in [t.split(",") for t in d["targets"].split(";") if t]]))
     return rows
@@ -211,18 +211,23 @@ def theorem_any(row, feat, t):
     D = f"{{ bg := bg, refresh := .{r}, isOn := {o}, partialFlag := {pf}, sleepMode := sm, oldData := od }}"
     dtag = f"_{r}_{'on' if o == 'true' else 'off'}_{'pf' if pf == 'true' else 'nopf'}"
     split = "  (\n"
-    name = f"{row['panel']}_upd_from_any_state{dtag}_plane{plane}" + ("" if feat == "v3" else "_v2")
-    prog = f"(({P}.prog {D} (.upd b0)).getD [.panic])"
+    name = f"{row['panel']}_{row['op']}_from_any_state{dtag}_plane{plane}" + ("" if feat == "v3" else "_v2")
+    osrc = row["src"]
+    nbuf = 2 if "b1" in osrc else 1
+    bufs = f"(b0 : Bytes) (h0 : b0.length = {n})" + (f" (b1 : Bytes) (h1 : b1.length = {n})" if nbuf == 2 else "")
+    hyps = "h0, h1" if nbuf == 2 else "h0"
+    barg, hA = f"b{arg}", f"h{arg}"
+    prog = f"(({P}.prog {D} ({osrc})).getD [.panic])"
     blocks = f"(blocksOf {prog})"
-    encx = f"(Spec.Enc.{enc}.apply b0)"
+    encx = f"(Spec.Enc.{enc}.apply {barg})"
     def prog_form(e, b):
         if e == "lo":
             return f"({b}.take {n // 2})"
         if e == "hi":
             return f"({b}.drop {n // 2})"
         return f"(Spec.Enc.{e}.apply {b})"
-    pfx = prog_form(enc, "b0")
-    SIMP = f"simp only [Drivers.{camel(row['panel'])}.panel, driver_simp, Option.getD, h0]"
+    pfx = prog_form(enc, barg)
+    SIMP = f"simp only [Drivers.{camel(row['panel'])}.panel, driver_simp, Option.getD, {hyps}]"
     NORM = f"(by first | ({SIMP}; rfl) | rfl)"
     okc = "Or.inl rfl" if ct in (0x24, 0x10) else "Or.inr rfl"
     L = ["set_option maxHeartbeats 1600000 in", "set_option maxRecDepth 1000000 in"]
@@ -235,7 +240,7 @@ def theorem_any(row, feat, t):
                           f"(window x {xs}..{xe}, y {ys}..{ye} at the data block) — history independence holds only as far as no operation changes the window")
         wb = xe + 1
         L.append(f"theorem {name} (s : Ssd) (hw : Ssd.WfSize s) (ha : s.asleep = false) (he : s.entry = 3) (hx : s.xPix = {cf[7]})")
-        L.append(f"    (hs : s.stride = {stride}) (hr : s.rows = {rows}) {dvars} (b0 : Bytes) (h0 : b0.length = {n}) :")
+        L.append(f"    (hs : s.stride = {stride}) (hr : s.rows = {rows}) {dvars} {bufs} :")
         L.append(f"    {prog}.all (fun a => !a.isPanic) = true ∧")
         L.append(f"    ∀ (j : Nat) (hj : j < {encx}.length),")
         L.append(f"      (Ssd.planeOf {plane} ({blocks}.foldl Ssd.feed s))[(j / {wb}) * {stride} + j % {wb}]? = some {encx}[j] := by")
@@ -245,7 +250,7 @@ def theorem_any(row, feat, t):
         B.append(f"    have hk : {blocks}[{kt}]? = some (.c {ct} (List.flatten [{pfx}])) := {NORM}")
         B.append(f"    have hpost : ({blocks}.drop ({kt} + 1)).all (fun b => !Ssd.touches (Ssd.planeOfCmd {ct}) b) = true := {NORM}")
         B.append(f"    have hlen : (List.flatten [{pfx}]).length = {lt} := by")
-        B.append(f"      {len_simp(enc).replace('hA', 'h0')}")
+        B.append(f"      {len_simp(enc).replace('hA', hA)}")
         B.append(f"    have hA : ({blocks}.take {kt}).foldl Ssd.feedA (Ssd.addr s) = ⟨{cf[7]}, {stride}, {rows}, 3, {xs}, {xe}, {ys}, {ye}, {xs}, {ys}, false⟩ := by")
         B.append(f"      rw [haddr]; first | ({SIMP}; rfl) | rfl")
         ev = "(by rw [hA]; first | done | rfl)"
@@ -259,7 +264,7 @@ def theorem_any(row, feat, t):
             return None, "not ready even from an awake controller outside partial mode"
         needp = cf[3] != "true"
         L.append(f"theorem {name} (u : Uc) (ha : u.asleep = false)" + (" (hp : u.partialOn = false)" if needp else "") + f" (h14 : u.has14 = {cf[4]})")
-        L.append(f"    (hsz : (Uc.planeU {plane} u).size = {lt}) {dvars} (b0 : Bytes) (h0 : b0.length = {n}) :")
+        L.append(f"    (hsz : (Uc.planeU {plane} u).size = {lt}) {dvars} {bufs} :")
         L.append(f"    {prog}.all (fun a => !a.isPanic) = true ∧")
         L.append(f"    (Uc.planeU {plane} ({blocks}.foldl Uc.feed u)).toList = {encx} := by")
         L.append(f"  have hflags : Uc.flags u = ⟨false, {'false' if needp else 'u.partialOn'}, {cf[4]}⟩ := by")
@@ -269,10 +274,10 @@ def theorem_any(row, feat, t):
         B.append(f"    have hk : {blocks}[{kt}]? = some (.c {ct} (List.flatten [{pfx}])) := {NORM}")
         B.append(f"    have hpost : ({blocks}.drop ({kt} + 1)).all (fun b => !Uc.touches (Uc.planeOfCmd {ct}) b) = true := {NORM}")
         B.append(f"    have hlen : (List.flatten [{pfx}]).length = {lt} := by")
-        B.append(f"      {len_simp(enc).replace('hA', 'h0')}")
+        B.append(f"      {len_simp(enc).replace('hA', hA)}")
         B.append(f"    have main := Uc.uc_from_any_state _ u {kt} {ct} _ hk ({okc}) (by rw [hlen, hpl, hsz]) (by rw [hflags]; first | ({SIMP}; rfl) | rfl) hpost")
         if pfx != encx:
-            B.append(f"    have he : {encx} = {pfx} := by simp [Spec.Enc.apply, h0]")
+            B.append(f"    have he : {encx} = {pfx} := by simp [Spec.Enc.apply, {hA}]")
             B.append(f"    rw [he]")
         B.append(f"    rw [hpl] at main")
         B.append(f"    simpa [flatten_single] using main)")
@@ -306,7 +311,7 @@ def main():
                 continue
             for t in row["targets"]:
                 if ANY:
-                    key = f"{row['panel']}_upd_from_any_state_{row['d'].replace(',', '_')}_plane{t[0]}" + ("" if feat == "v3" else "_v2")
+                    key = f"{row['panel']}_{row['op']}_from_any_state_{row['d'].replace(',', '_')}_plane{t[0]}" + ("" if feat == "v3" else "_v2")
                 else:
                     key = f"{row['panel']}_{row['op']}" + ("" if row["hist"] == "fresh" else f"_after_{row['hist']}") + f"_plane{t[0]}" + ("" if feat == "v3" else "_v2")
                 if key in dropped:
